@@ -86,11 +86,15 @@ def probe_inst(unw2, unw3, tds=(2, 3)):
                     if td == 3 and k % 2 == 0:
                         # insertion of a new key into a tree of height 3: 4-6 GB and minutes per query
                         d['tier'] = 'thorough'
-                        d['weight'] = 4
                     if td == 3 and ntree[0] % 3 != 0:
                         d['tier'] = 'thorough'
                     out.append(d)
     return out
+
+
+# height-3 allocation-failure instances that ride in the quick tier: insertion below a non-root 4-node (5-node tree whose
+# right child is a 4-node); the other height-3 trees exhaust memory with allocation failure enabled and are not registered
+PUT_FAIL_QUICK3 = {(103, 96, 4), (103, 96, 6), (103, 96, 8), (103, 96, 10)}
 
 
 def tg(name, entry, funcs, props, inst, **kw):
@@ -104,9 +108,14 @@ def tg(name, entry, funcs, props, inst, **kw):
 GROUPS = [
     # every (tree, key) pair with allocation succeeding: fully concrete structure, values symbolic
     tg('put', 'h_put', ['qtreetbl_putobj', 'put_obj', 'new_obj', 'rotate_left', 'rotate_right', 'flip_color', 'is_red', 'qtreetbl_free', 'free_objs'],
-       ['C01', 'C02', 'C11', 'C12', 'C14'], probe_inst(5, 9), flags=['--memory-leak-check', '--no-malloc-may-fail'], defines=['-DNOFAIL']),
+       ['C01', 'C02', 'C11', 'C12', 'C14'], [dict(d, weight=4) if (d['TD'] == 3 and d['PROBE'] % 2 == 0) else d for d in probe_inst(5, 9)
+        # insertion of a NEW key into a height-3 tree costs 4-6 GB and minutes: registered for every third tree only (thorough)
+        if not (d['TD'] == 3 and d['PROBE'] % 2 == 0 and (d['SHAPE'] * 7 + d['COLORS']) % 3 != 0)],
+       flags=['--memory-leak-check', '--no-malloc-may-fail'], defines=['-DNOFAIL']),
     # the same with every allocation free to fail (C15), on the trees of height <= 2
-    tg('put_fail', 'h_put', ['qtreetbl_putobj', 'put_obj', 'new_obj'], ['C15', 'C02', 'C11', 'C14'], probe_inst(5, 9, tds=(2,))),
+    tg('put_fail', 'h_put', ['qtreetbl_putobj', 'put_obj', 'new_obj'], ['C15', 'C02', 'C11', 'C14'],
+       probe_inst(5, 9, tds=(2,)) + [dict(d, tier='quick', weight=4, timeout=2400)
+                                    for d in probe_inst(5, 9, tds=(3,)) if (d['SHAPE'], d['COLORS'], d['PROBE']) in PUT_FAIL_QUICK3]),
     tg('remove', 'h_remove', ['qtreetbl_removeobj', 'remove_obj', 'remove_min', 'move_red_left', 'move_red_right', 'fix', 'find_min'], P_ALL,
        probe_inst(5, 9)),
     tg('get', 'h_get', ['qtreetbl_getobj', 'find_obj', 'qtreetbl_size', 'qtreetbl_find_min', 'qtreetbl_find_max', 'find_min', 'find_max', 'qtreetbl_clear'], P_ALL,
